@@ -1272,3 +1272,63 @@ func c18R17(c *Ctx, r *Report) {
 	r.Check(good, rule, fn.Name(), "an index expression of the expected optional type is not wrapped", c.pos(fn.Decl.Pos()),
 		"every expression whose type is an optional is wrapped in OptionalSome, also one that denotes an optional in memory: `let arr: [2]i32? = [1, none]; let x: i32? = arr[1]; io::Println(x == none);` prints false, and `arr[0]` read the same way is the element's address")
 }
+
+// ---- C03.R22: a local used above its declaration is reported --------------------------------------------------------
+
+func init() {
+	lateInits = append(lateInits, func() {
+		props["C03"].Quick = append(props["C03"].Quick, c03R22)
+		props["C12"].Quick = append(props["C12"].Quick, c03R22)
+		props["C03"].Explanation += " (R22) the use-before-declaration check that runs for every identifier does not stop at symbols declared outside the module scope: for locals it goes on for variables and constants (the collector enters a block's declarations before the block is checked, so a use above the `let` resolves to a symbol without a type, which several checks — the private-field rule among them — let pass)."
+	})
+}
+
+func c03R22(c *Ctx, r *Report) {
+	const rule = "C03.R22"
+	r.Describe(rule, "typechecker.checkModuleScopeUseBeforeDecl: the branch taken for a symbol whose DeclaredScope is not the module scope is not a bare return — it tests the symbol kind against SymbolVariable / SymbolConstant and falls through for those; the function is called from checkExpr's identifier clause")
+	fn := c.LookupFn(pkgTC, "checkModuleScopeUseBeforeDecl")
+	chk := c.LookupFn(pkgTC, "checkExpr")
+	if !r.Anchor(rule, fn != nil && chk != nil && fn.Decl.Body != nil, "typechecker checkModuleScopeUseBeforeDecl / checkExpr") {
+		return
+	}
+	info := fn.Info()
+	var guard *ast.IfStmt
+	ast.Inspect(fn.Decl.Body, func(x ast.Node) bool {
+		ifs, ok := x.(*ast.IfStmt)
+		if !ok || guard != nil {
+			return true
+		}
+		s := exprStr(ifs.Cond)
+		if strings.Contains(s, "DeclaredScope") && strings.Contains(s, "ModuleScope") {
+			guard = ifs
+		}
+		return true
+	})
+	if guard == nil {
+		// no scope test at all: every symbol is checked
+		r.OK(rule, fn.Name(), "locals are covered", c.pos(fn.Decl.Pos()), "no scope restriction")
+	} else {
+		kinds := map[string]bool{}
+		ast.Inspect(guard.Body, func(x ast.Node) bool {
+			if id, ok := x.(*ast.Ident); ok {
+				if o, ok := info.Uses[id].(*types.Const); ok {
+					kinds[o.Name()] = true
+				}
+			}
+			return true
+		})
+		bare := len(guard.Body.List) == 1
+		if bare {
+			_, bare = guard.Body.List[0].(*ast.ReturnStmt)
+		}
+		r.Check(!bare && kinds["SymbolVariable"] && kinds["SymbolConstant"], rule, fn.Name(), "locals are covered", c.pos(guard.Pos()),
+			"the check returns for every symbol that is not declared at module level: `if b.V == 10 { … } let b := { .V = 10 } as T;` is accepted — b resolves to the symbol the collector entered for the later `let`, its type is unknown, and neither the comparison nor the private-field rule objects")
+	}
+	called := false
+	for _, cl := range callsIn(chk.Decl.Body, false) {
+		if isCallTo(chk.Info(), cl, fn.Obj) {
+			called = true
+		}
+	}
+	r.Check(called, rule, chk.Name(), "identifiers are checked for use before declaration", c.pos(chk.Decl.Pos()), "checkExpr no longer runs the use-before-declaration check for identifiers")
+}
